@@ -133,6 +133,9 @@ func toSVal(v Value, st *State) SVal {
 		return SArr{x.Arr, x.Ty}
 	case PObj:
 		return SPtr{x.Ref, x.Ty, st}
+	case VIfaceObj:
+		// an interface value known to hold a pointer to a struct: fields are accessible
+		return SPtr{x.Obj.Ref, x.Obj.Ty, st}
 	case VStruct:
 		return SStruct{x, st}
 	case PGlobal:
@@ -456,6 +459,18 @@ func (ev *Env) bin(x *EBin) SVal {
 	switch x.Op {
 	case "&&", "||", "==>", "<==>":
 		l, lok := ev.eval(x.L).(SBool)
+		if lok {
+			// short-circuit on constants: the right operand may not be evaluable on this path
+			// (e.g. callarg(0, ..) when no call was logged)
+			switch {
+			case x.Op == "&&" && l.T == False:
+				return SBool{False}
+			case x.Op == "||" && l.T == True:
+				return SBool{True}
+			case x.Op == "==>" && l.T == False:
+				return SBool{True}
+			}
+		}
 		r, rok := ev.eval(x.R).(SBool)
 		if !lok || !rok {
 			sfail("%s on non-bool operands", x.Op)
@@ -691,6 +706,12 @@ func (ev *Env) call(x *ECall) SVal {
 			return SInt{Ite(c.T, av.T, bv.T), av.Ty}
 		case SBool:
 			return SBool{Ite(c.T, av.T, b.(SBool).T)}
+		case SIface:
+			bv, ok := b.(SIface)
+			if !ok {
+				sfail("ite branches differ in type")
+			}
+			return SIface{Ite(c.T, av.T, bv.T)}
 		case SUntyped:
 			sfail("ite with two untyped constants: convert one")
 		}
@@ -729,7 +750,7 @@ func (ev *Env) call(x *ECall) SVal {
 		}
 		return SInt{a.Off, tyInt}
 	}
-	if strings.HasPrefix(x.Fn, "eff.") {
+	if x.Fn == "ncalls" || x.Fn == "callarg" || x.Fn == "callret" {
 		return ev.effectQuery(x)
 	}
 	fn, ok := ev.W.SpecFns[x.Fn]
@@ -886,9 +907,50 @@ func ConstArrOfArr(elem *Sort) *Term {
 	return ConstArr(ArrSort(RegSort, inner), ConstArr(inner, z))
 }
 
+// effectQuery: the log of interface-method calls made since function entry.
+//   ncalls()        number of calls
+//   callarg(k, i)   i-th argument of the k-th call (argument 0 is the receiver)
+//   callret(k, i)   i-th result of the k-th call
 func (ev *Env) effectQuery(x *ECall) SVal {
-	sfail("effect queries not implemented: %s", x.Fn)
-	return nil
+	base := 0
+	if ev.old != nil {
+		base = len(ev.old.effects)
+	}
+	effs := ev.st.effects
+	if base > len(effs) {
+		base = len(effs)
+	}
+	effs = effs[base:]
+	if x.Fn == "ncalls" {
+		return SInt{BVInt(int64(len(effs)), 64), tyInt}
+	}
+	if len(x.Args) != 2 {
+		sfail("%s(k, i)", x.Fn)
+	}
+	lit := func(e Expr) int {
+		l, ok := e.(*ELit)
+		if !ok {
+			sfail("%s needs literal indices", x.Fn)
+		}
+		return int(l.V.Int64())
+	}
+	k, i := lit(x.Args[0]), lit(x.Args[1])
+	if k >= len(effs) {
+		// the clause talks about a call that does not exist on this path
+		sfail("callarg/callret(%d, ..): only %d call(s) logged on this path (guard the clause with ncalls())", k, len(effs))
+	}
+	e := effs[k]
+	hs := &State{heaps: e.Heap, globals: ev.st.globals, alloc: ev.st.alloc}
+	if x.Fn == "callarg" {
+		if i >= len(e.Args) {
+			sfail("callarg: no argument %d", i)
+		}
+		return toSVal(e.Args[i], hs)
+	}
+	if i >= len(e.Rets) {
+		sfail("callret: no result %d", i)
+	}
+	return toSVal(e.Rets[i], hs)
 }
 
 // contractByShortName resolves "pkg.Func" to the contract of a function of the module.
